@@ -71,6 +71,8 @@ def write_table(head, vhead):
         if target in cf and cf[target].get("keys"):
             first = cf[target]["keys"][0]
         fs = meta.get("first_shot")
+        if meta.get("neutralised"):
+            first = "(neutralised by a later fix: the demonstration passes with the patch; see meta.json)"
         rows.append((seed, target, meta.get("round", 1), "-" if fs is None else ("yes" if fs.get("detected_by_target_property") else "no (" + (",".join(fs.get("detected_by", [])) or "none") + ")"),
                      cur.get("applies"), cur.get("detected_by_target_property"), ",".join(cur.get("detected_by", [])), first, (meta.get("summary") or "")[:170]))
     with open(os.path.join(SEEDED, "TABLE.md"), "w") as f:
